@@ -99,3 +99,50 @@ Fixpoint sched_stream (n : list (list N)) (fi : fin) : list N * fin :=
   | [] :: _ => ([], FinEof)
   | c :: n' => let '(s, f) := sched_stream n' fi in (c ++ s, f)
   end.
+
+
+(* ---------------- vocabulary of the property statements (C05 / C06) ---------------- *)
+(* a byte *)
+Definition bytes (l : list N) : Prop := Forall (fun x => (x < 256)%N) l.
+
+(* C05_reject: a stream that starts with complete, well-formed MBAP frames; a malformed header *)
+Inductive framed : list N -> list frame -> Prop :=
+| framed_nil : framed [] []
+| framed_cons t1 t0 l1 l0 u pdu s fs :
+    N.to_nat (be l1 l0) = S (length pdu) -> length pdu <= 253 -> framed s fs ->
+    framed ([t1; t0; 0; 0; l1; l0; u]%N ++ pdu ++ s) ({| f_tx := Some (be t1 t0); f_dest := u; f_bcast := false; f_pdu := pdu |} :: fs).
+Definition bad_header (h : list N) : Prop :=
+  exists t1 t0 p1 p0 l1 l0 u, h = [t1; t0; p1; p0; l1; l0; u] /\
+    (be p1 p0 <> 0%N \/ be l1 l0 = 0%N \/ (254 < be l1 l0)%N).
+
+(* C06_detect_session: the length rule applied to the PDU gives exactly its length
+   (for a corrupted frame: the corruption left function code / byte count meaningful) *)
+Definition delimited (r : role) (pdu : list N) : Prop :=
+  match pdu with
+  | [] => False
+  | fcv :: _ =>
+      match length_rule r fcv with
+      | LFixed n => length pdu = 1 + n
+      | LCount off => 1 + off <= length pdu /\ length pdu = 1 + off + N.to_nat (nth off pdu 0%N)
+      | LUnknown => False
+      end
+  end.
+
+(* C06_detect: bits in wire order (byte by byte, least significant bit first; a 16-bit word low byte first) *)
+Definition bits8 (b : N) : list bool := map (N.testbit b) (map N.of_nat (seq 0 8)).
+Definition bits16 (x : N) : list bool := map (N.testbit x) (map N.of_nat (seq 0 16)).
+Definition bits_of (l : list N) : list bool := flat_map bits8 l.
+Definition zeros (n : nat) : list bool := repeat false n.
+(* the corrupted frame: byte-wise xor with the error pattern *)
+Fixpoint xor_bytes (a b : list N) : list N :=
+  match a, b with x :: a, y :: b => N.lxor x y :: xor_bytes a b | _, _ => [] end.
+(* the error classes, as patterns over the bits of the whole frame (trailer included) *)
+Definition err_class (bs : list bool) : Prop :=
+  (* one bit *)
+  (exists a z, bs = zeros a ++ [true] ++ zeros z) \/
+  (* two bits, d apart *)
+  (exists a d z, 1 <= d <= 2100 /\ bs = zeros a ++ [true] ++ zeros (d - 1) ++ [true] ++ zeros z) \/
+  (* everything inside one 16-bit window *)
+  (exists a x z, (x < 65536)%N /\ x <> 0%N /\ bs = zeros a ++ bits16 x ++ zeros z) \/
+  (* a burst: every flipped bit lies in a span w of at most 16 bits (the frame itself has at least 16 bits) *)
+  (exists a w z, length w <= 16 /\ w <> zeros (length w) /\ 16 <= length bs /\ bs = zeros a ++ w ++ zeros z).
